@@ -247,7 +247,9 @@ func fetchStats(s *simrt.Sim) (*FlowStats, string) {
 	}
 	rec := httptest.NewRecorder()
 	req := httptest.NewRequest("GET", "/flow", nil)
+	simrt.RaceSyncOn()
 	s.HTTP[0].Handler.ServeHTTP(rec, req)
+	simrt.RaceSyncOff()
 	var fs FlowStats
 	if err := json.Unmarshal(rec.Body.Bytes(), &fs); err != nil {
 		return nil, "stats: " + err.Error() + ": " + rec.Body.String()
